@@ -11,6 +11,11 @@
    patterns) and compares class and receiver sets with the prediction and all key / receiver bytes with
    an independent derivation from the seed; real Sapling / Orchard / Ironwood note encryption to the
    derived receivers gives the decryption clause.
+3. Legacy transparent secret keys (spec/Address/LegacyKey.tla, zcashd's WIF form; zcash_keys feature
+   `transparent-key-encoding`): TLC enumerates (key bytes x prefix byte x payload shape x checksum state x decoding
+   network) with the predicted verdict and checks the round-trip theorems on the abstract codec;
+   harness/h_keys/src/bin/c11_legacy.rs materialises every case with its own SHA-256 / base 58 and runs
+   Key::{decode_base58, encode_base58, der_encode, der_decode, pubkey}.
 """
 import json
 import os
@@ -124,12 +129,105 @@ def report(ctx, res, maxpath, maxline):
                          m["what"], json.dumps(m["detail"])[:900]))
 
 
+# ---------------------------------------------------------------------------------------------------------
+# legacy transparent secret key encodings (LegacyKey.tla)
+
+LEGACY_CLASSES = ["accept_compressed", "accept_uncompressed", "ck:bad", "ck:badchar", "len:s0", "len:s1", "len:s32",
+                  "len:s35", "prefix:other_network", "prefix:nobody", "marker:s34_0", "marker:s34_2", "key:zero",
+                  "key:order", "key:np1", "key:max"]
+
+
+def legacy_class(c, prefixes):
+    """Why a CASE record is refused (bookkeeping for the vacuity guard only; the verdict itself is TLC's)."""
+    if c["ok"]:
+        return "accept_compressed" if c["compressed"] else "accept_uncompressed"
+    if c["ck"] != "ok":
+        return "ck:" + c["ck"]
+    if c["shape"] in ("s0", "s1", "s32", "s35"):
+        return "len:" + c["shape"]
+    if c["pfx"] != prefixes[c["net"]]:
+        return "prefix:other_network" if c["pfx"] in prefixes.values() else "prefix:nobody"
+    if c["shape"] in ("s34_0", "s34_2"):
+        return "marker:" + c["shape"]
+    return "key:" + c["key"]
+
+
+def legacy_emit(ctx, d):
+    lib.sany(os.path.join(d, "LegacyKey.tla"))
+    lib.sany(os.path.join(d, "MC_LegacyKey.tla"))
+    r = lib.tlc(ctx, d, "MC_LegacyKey", "MC_LegacyKey.cfg", workers=1, timeout=300, coverage=False)
+    recs = []
+    for t in ("CASE", "ENC", "CONST"):
+        for x in r.prints(t):
+            x["table"] = t
+            recs.append(x)
+    cases = [x for x in recs if x["table"] == "CASE"]
+    consts = [x for x in recs if x["table"] == "CONST"]
+    if len(consts) != 1 or len([x for x in recs if x["table"] == "ENC"]) != 18:
+        raise lib.ToolError("legacy key tables missing from TLC's output")
+    seen = set(legacy_class(c, consts[0]["prefix"]) for c in cases)
+    missing = [k for k in LEGACY_CLASSES if k not in seen]
+    if missing or sum(1 for c in cases if c["ok"] and not c["compressed"]) < 9 \
+            or sum(1 for c in cases if c["ok"] and c["compressed"]) < 9:
+        raise lib.ToolError("vacuity: legacy key case classes never emitted: %s" % missing)
+    return recs, r
+
+
+def legacy_harness(ctx, bindir, recs, seed, reps, name="legacy"):
+    p = ctx.path("%s.ndjson" % name)
+    with open(p, "w") as f:
+        for r in recs:
+            f.write(json.dumps(r) + "\n")
+    cp = ctx.path("%s_cfg.json" % name)
+    with open(cp, "w") as f:
+        json.dump({"seed": seed, "reps": reps}, f)
+    out = lib.run_bin(os.path.join(bindir, "c11_legacy"), [p, cp], timeout=600)
+    return json.loads(out.stdout.strip().splitlines()[-1])
+
+
+def legacy_report(ctx, res, seed, reps, limit=3):
+    seen = set()
+    for m in res["mismatches"]:
+        if m["what"] in seen or len(seen) >= limit:
+            continue
+        seen.add(m["what"])
+        lib.violation(ctx, {"property": "C11", "section": "legacy", "what": m["what"], "detail": m["detail"],
+                            "seed": seed, "reps": reps},
+                      "legacy transparent secret key encoding disagrees with LegacyKey.tla: %s | %s"
+                      % (m["what"], json.dumps(m["detail"])[:900]))
+
+
+def legacy_reps(ctx):
+    return 16 if ctx.quick() else 128
+
+
+def legacy_run(ctx, bindir, d):
+    recs, r = legacy_emit(ctx, d)
+    lib.account_tlc(ctx, r)
+    reps = legacy_reps(ctx)
+    res = legacy_harness(ctx, bindir, recs, ctx.seed, reps)
+    c = res["counts"]
+    ncase = sum(1 for x in recs if x["table"] == "CASE")
+    if not res["mismatches"] and (c.get("accepted_uncompressed", 0) < 6 + 3 * reps
+                                  or c.get("accepted_compressed", 0) < 6 + 3 * reps
+                                  or c.get("decode_calls", 0) < ncase or c.get("enc_cases", 0) < 18
+                                  or c.get("cross_decodes", 0) < 30 or c.get("key_checks", 0) < 60):
+        raise lib.ToolError("vacuity: legacy key harness executed too little: %s" % c)
+    legacy_report(ctx, res, ctx.seed, reps)
+    ctx.extra["legacy_key_counts"] = c
+    ctx.add_sample(next(x for x in recs if x["table"] == "CASE" and x["ok"] and not x["compressed"]))
+    return c.get("decode_calls", 0) + c.get("key_checks", 0)
+
+
 def run(ctx):
-    bindir = lib.cargo_build("h_keys", ["c11_replay"])
+    bindir = lib.cargo_build("h_keys", ["c11_replay", "c11_legacy"])
     d = lib.stage_specs(ctx, AREA)
     lib.sany(os.path.join(d, "Keys.tla"))
     lib.sany(os.path.join(d, "MC_Keys.tla"))
     maxpath, maxline = bounds(ctx)
+
+    # (0) legacy transparent secret key encodings (cheap; own specification module)
+    legacy_traces = legacy_run(ctx, bindir, d)
 
     # (1) the theorems, on every path x request x line
     write_cfg(os.path.join(d, "MC_run.cfg"), "mc", maxpath, maxline, False, inv=True)
@@ -153,7 +251,7 @@ def run(ctx):
     report(ctx, res, maxpath, maxline)
 
     ctx.traces = c.get("paths", 0) + c.get("case_evaluations", 0) + c.get("gap_cases", 0) + c.get("codec_cases", 0) \
-        + c.get("notes_encrypted", 0) + c.get("bip44_derivations", 0) + c.get("meet_cases", 0)
+        + c.get("notes_encrypted", 0) + c.get("bip44_derivations", 0) + c.get("meet_cases", 0) + legacy_traces
     ctx.add_sample({"path": [s["a"] for s in paths[len(paths) // 2]["path"]], "lvl": paths[len(paths) // 2]["lvl"],
                     "comps": paths[len(paths) // 2]["comps"], "ok": paths[len(paths) // 2]["ok"]})
     for i in (len(cases) // 3, 2 * len(cases) // 3, len(cases) - 5):
@@ -181,9 +279,21 @@ def run(ctx):
 
 
 def replay(ctx, path):
-    bindir = lib.cargo_build("h_keys", ["c11_replay"])
     with open(path) as f:
         rep = json.load(f)
+    if rep.get("section") == "legacy":
+        bindir = lib.cargo_build("h_keys", ["c11_legacy"])
+        d = lib.stage_specs(ctx, AREA)
+        recs, _ = legacy_emit(ctx, d)
+        res = legacy_harness(ctx, bindir, recs, rep["seed"], rep["reps"], name="legacy_replay")
+        same = [m for m in res["mismatches"] if m["what"] == rep["what"]] or res["mismatches"]
+        if same:
+            res["mismatches"] = same[:1]
+            legacy_report(ctx, res, rep["seed"], rep["reps"])
+        else:
+            lib.log("replay: the real code now agrees with the specification on the legacy key cases")
+        return
+    bindir = lib.cargo_build("h_keys", ["c11_replay"])
     d = lib.stage_specs(ctx, AREA)
     maxpath, maxline = rep.get("maxpath", 5), rep.get("maxline", 3)
     paths, cases, tables, _ = emit(ctx, d, maxpath, maxline)
@@ -201,10 +311,43 @@ def replay(ctx, path):
         lib.log("replay: the real code now agrees with the specification on this key")
 
 
+def legacy_selftest(ctx, bindir, d):
+    recs, _ = legacy_emit(ctx, d)
+    res = legacy_harness(ctx, bindir, recs, ctx.seed, 2, name="legacy_st_clean")
+    if res["mismatches"]:
+        raise lib.ToolError("selftest: unperturbed legacy key cases are reported: %s" % res["mismatches"][0]["what"])
+
+    def perturbed(name, pick, change):
+        r2 = json.loads(json.dumps(recs))
+        i = next(i for i, x in enumerate(r2) if pick(x))
+        change(r2[i])
+        return legacy_harness(ctx, bindir, r2, ctx.seed, 2, name="legacy_st_" + name)["mismatches"]
+
+    def case(x, **kw):
+        return x["table"] == "CASE" and all(x[k] == v for k, v in kw.items())
+
+    # an accepted uncompressed string predicted as refused; a refused marker byte predicted as accepted; the
+    # compressed flag flipped; the prefix byte of an encoding changed; a cross-network verdict flipped
+    tests = [
+        ("reject", lambda x: case(x, ok=True, compressed=False, key="nm1", net="main"), lambda x: x.update(ok=False)),
+        ("accept", lambda x: case(x, shape="s34_2", ck="ok", key="one", pfx=239, net="test"),
+         lambda x: x.update(ok=True, compressed=True)),
+        ("flag", lambda x: case(x, ok=True, compressed=True, key="one"), lambda x: x.update(compressed=False)),
+        ("encbyte", lambda x: x["table"] == "ENC" and not x["compressed"] and x["key"] == "one",
+         lambda x: x["payload"].__setitem__(0, 129)),
+        ("cross", lambda x: x["table"] == "ENC" and x["net"] == "test", lambda x: x["dec"].update(regtest=False)),
+    ]
+    for name, pick, change in tests:
+        if not perturbed(name, pick, change):
+            raise lib.ToolError("selftest: perturbed legacy key prediction (%s) was not reported" % name)
+    lib.log("selftest ok (legacy keys): perturbed verdicts, compressed flag, encoding payload and cross-network entry all reported")
+
+
 def selftest(ctx):
     """Binding demonstration (R): perturb one expected value per table; the harness must report it."""
-    bindir = lib.cargo_build("h_keys", ["c11_replay"])
+    bindir = lib.cargo_build("h_keys", ["c11_replay", "c11_legacy"])
     d = lib.stage_specs(ctx, AREA)
+    legacy_selftest(ctx, bindir, d)
     paths, cases, tables, _ = emit(ctx, d, 4, 3)
     key = {"seed_hex": "%064x" % (0x1234567 + ctx.seed), "account": 1, "net": "test"}
     base = {"seed": 1, "sample_mod": 6, "idx_per_line": 1, "gap_mod": 4, "threads": 2, "max_line": 3, "only_keys": [key]}
